@@ -145,6 +145,10 @@ pub fn scenario(seed: u64, i: usize, cells: &[Cell], tier: Tier) -> Scenario {
     o.allow_ext = false;
     let topo = random_topology(&mut r, cell.v6, &o);
     let mut wcfg = world_cfg(topo, seed ^ i as u64);
+    // TCP: local port collisions leave skipped slots (sequences that were never put on the wire)
+    if cell.protocol == Protocol::Tcp && r.chance(1, 3) {
+        wcfg.faults.bind_in_use_pct = r.range(5, 30) as u8;
+    }
     let density = *r.pick(&[10u64, 30, 100]);
     wcfg.adversary = Adversary {
         forgeries: vec![
